@@ -723,13 +723,14 @@ func (f *Facts) killed(fi *fnInfo, a Atom, e edgeFact, at ssa.Instruction) bool 
 			continue
 		}
 		sb := s.Block()
-		// is the store between the fact's establishment (e.At) and the use?
-		afterFact := sb == e.At || fi.reachable(e.At, sb)
+		// is the store between the fact's establishment (e.At) and the use, on a path that does not
+		// re-establish the fact (i.e. does not take the edge e.From -> e.At again)?
+		afterFact := sb == e.At || reachAvoiding(e.At, sb, e.From, e.At)
 		var beforeUse bool
 		if sb == at.Block() {
-			beforeUse = instrIndex(s) < instrIndex(at) || fi.reachable(sb, sb)
+			beforeUse = instrIndex(s) < instrIndex(at) || reachAvoiding(sb, sb, e.From, e.At)
 		} else {
-			beforeUse = fi.reachable(sb, at.Block())
+			beforeUse = reachAvoiding(sb, at.Block(), e.From, e.At)
 		}
 		if afterFact && beforeUse {
 			return true
@@ -785,4 +786,28 @@ func callsIn(fn *ssa.Function) []ssa.CallInstruction {
 		}
 	}
 	return out
+}
+
+// reachAvoiding: is `to` reachable from `from` (one or more edges) without traversing the edge a->b?
+func reachAvoiding(from, to, a, b *ssa.BasicBlock) bool {
+	seen := map[*ssa.BasicBlock]bool{}
+	var dfs func(x *ssa.BasicBlock) bool
+	dfs = func(x *ssa.BasicBlock) bool {
+		for _, s := range x.Succs {
+			if x == a && s == b {
+				continue
+			}
+			if s == to {
+				return true
+			}
+			if !seen[s] {
+				seen[s] = true
+				if dfs(s) {
+					return true
+				}
+			}
+		}
+		return false
+	}
+	return dfs(from)
 }
